@@ -3,7 +3,7 @@
    callback on every run).  Every proof is `exact <lemma>`. *)
 From Coq Require Import List Bool Arith.
 From RecordUpdate Require Import RecordSet.
-From GW Require Import Proto ProtoEvolves ProtoProps ProtoBound Callbacks CallbackGen CallbackRefine CallbackSend Coroutines CoroutineGen CoroutineRefine.
+From GW Require Import Proto ProtoEvolves ProtoProps ProtoBound Callbacks CallbackGen CallbackRefine CallbackSend Coroutines CoroutineGen CoroutineRefine ProtoMutex ProtoAnswer ProtoTimer.
 Import ListNotations RecordSetNotations.
 
 (* in every reachable state the retry counter is within the configured budget (any interleaving, any number of callers) *)
@@ -65,6 +65,14 @@ Proof. exact sr_exception_refined. Qed.
 Theorem C04_wait_for_is_the_model : forall s, (match s_kind s with TCP => true | UDP => false end) = sh_wait_for (sr_shape_of (s_kind s)).
 Proof. exact wait_for_refined. Qed.
 
+(* "a request never hangs": in EVERY state of EVERY run (any callers, any events) a caller that waits for an answer that has not arrived
+   has a timeout armed -- the protocol object's timer handle is live, or the deferred call of _timeout_mechanism is queued.  (That an armed
+   timer eventually fires is the assumption about the event loop; the firing resolves the future: C04_*_timeout_mechanism_is_the_model.) *)
+Theorem C04_waiting_caller_has_a_timeout_armed : forall es kd ka r s acts, run (init kd ka r) es = Some (s, acts) ->
+  forall k f, pc_of s k = Some (PcAwait f) -> pending s f = true ->
+  (exists h, s_timer s = Some h /\ In h (s_handles s)) \/ In CbSoon (s_ready s).
+Proof. exact waiting_caller_has_a_timeout_armed. Qed.
+
 Print Assumptions C04_retry_bounded.
 Print Assumptions C04_budget_exhausted.
 Print Assumptions C04_retry_consumes_one.
@@ -75,3 +83,4 @@ Print Assumptions C04_max_retries_reached_is_the_model.
 Print Assumptions C04_send_request_sync_is_the_model.
 Print Assumptions C04_except_clauses_are_the_model.
 Print Assumptions C04_wait_for_is_the_model.
+Print Assumptions C04_waiting_caller_has_a_timeout_armed.
